@@ -18,8 +18,8 @@
     Model/DistPrim.v.
 
     The code as it is, including what looks like slips:
-    - [_swap_vertices] does not swap: [tmp = v[idx1]] is a VIEW, so row idx2 is copied over row
-      idx1 and both rows end up equal (compiled and interpreted alike);
+    - ([_swap_vertices] used to copy row idx2 over row idx1 because [tmp = v[idx1]] was a view —
+      finding F-P1, repaired by commit fdadc7f; the model follows the repaired code);
     - [_triangle] / [_tetrahedron] build their (v, v1, v2) triples as (v, v1, v1): irrelevant
       for the boolean answer. *)
 From Coq Require Import List Bool QArith.
@@ -212,10 +212,10 @@ Section Libccd.
     if encapsulates_origin v1 (portal_dir v1 v2 v3) then MAns true else MNext (PRefine v0 v1 v2 v3).
 
   (** after the second helper: CONTINUE_BUILDING_PORTAL -> direction perpendicular to v0 v1 v2,
-      with the "swap" that copies row 2 over row 1 *)
+      with the swap of rows 1 and 2 *)
   Definition start_discover (v0 v1 v2 : V3 F) : mpr_step_result :=
     let d := norm_vector (cross (vsub v1 v0) (vsub v2 v0)) in
-    if zero <? dot d v0 then MNext (PDiscover v0 v2 v2 (vscale (- one) d) 0)     (* _swap_vertices: v[1] := v[2] *)
+    if zero <? dot d v0 then MNext (PDiscover v0 v2 v1 (vscale (- one) d) 0)     (* _swap_vertices(1, 2) (a real swap since commit fdadc7f) *)
     else MNext (PDiscover v0 v1 v2 d 0).
 
   Definition mpr_step (max_iterations : nat) (tol : F) (ph : mpr_phase) (p q : V3 F) : mpr_step_result :=
